@@ -753,7 +753,14 @@ def coverage(prop, agg, tier, wall, workers):
         'states': len(agg.states),
         'transitions': len(agg.transitions),
         'distinct_states_measure': 'blake2b-64 of (task dates, usage rows) per calc result; transitions = (direction, balance, outcome, exception, clock policy, peer fault)',
-        'faults_fired': {k[len('fault.'):]: v for k, v in sorted(c.items()) if k.startswith('fault.')},
+        'faults_fired': dict({k[len('fault.'):]: v for k, v in sorted(c.items()) if k.startswith('fault.')}, **{
+            'clock_jump_inside_calc': c.get('probe.clock_jump_inside_calc', 0),
+            'clock_stepped_back_inside_calc': c.get('probe.clock_stepped_back_inside_calc', 0),
+            'clock_crossed_midnight_inside_calc': c.get('probe.clock_crossed_midnight_inside_calc', 0),
+            'wbs_edited_between_calcs': c.get('probe.wbs_edited_between_calcs', 0),
+            'calendar_edited_between_calcs': c.get('probe.calendar_edited_between_calcs', 0),
+            'result_fed_back_into_scheduler': c.get('probe.result_fed_back_into_scheduler', 0),
+            'scheduler_reused_for_other_wbs': c.get('probe.scheduler_reused_for_other_wbs', 0)}),
         'clock_policies': {k[len('clock.'):]: v for k, v in sorted(c.items()) if k.startswith('clock.')},
         'probes': {k[len('probe.'):]: v for k, v in sorted(c.items()) if k.startswith('probe.')},
         'runs_stopped_by_other_property': {k[len('poisoned_by.'):]: v for k, v in sorted(c.items()) if k.startswith('poisoned_by.')},
